@@ -6,10 +6,11 @@ import OdakModel.Exec.OpsRay
 import OdakModel.Exec.OpsColour
 import OdakModel.Exec.OpsSlicing
 import OdakModel.Exec.OpsFovea
+import OdakModel.Exec.OpsProp
 /-! `odakdrv`: reads one operation per line on stdin, prints the model's answer per line. -/
 namespace Odak.Exec
 
-def allOps : List (String × Handler) := opsIndex ++ opsWave ++ opsRot ++ opsPolar ++ opsRay ++ opsRays ++ opsColour ++ opsSlicing ++ opsFovea
+def allOps : List (String × Handler) := opsIndex ++ opsWave ++ opsRot ++ opsPolar ++ opsRay ++ opsRays ++ opsColour ++ opsSlicing ++ opsFovea ++ opsProp
 
 def step (line : String) : String :=
   match (line.trimAscii.toString.splitOn " ").filter (· ≠ "") with
